@@ -111,55 +111,84 @@ func runCheck(prop, tier string, seed int) (int, *Evidence) {
 	usedExtern := map[string]bool{}
 	usedC := map[string]bool{}
 	warnings := map[string]bool{}
-	tagSet := map[string]bool{}
-	for _, k := range db.SortedKeys() {
-		s := db.Funcs[k]
-		if hasProp(s, prop) && !s.Trusted && !s.IsC && !strings.Contains(k, "#") {
-			t := "verif"
-			if s.Tags != "" {
-				t += "," + s.Tags
-			}
-			tagSet[t] = true
+	// The functions checked for a property: those tagged with it, plus (transitively) every callee under contract
+	// that has a body in the repository — a caller only sees the callee's contract, so the callee's own obligations
+	// are part of what carries the property.
+	progs := map[string]*Program{}
+	loadCfg := func(tags string) (*Program, error) {
+		if P, ok := progs[tags]; ok {
+			return P, nil
 		}
-	}
-	var configs []string
-	for t := range tagSet {
-		configs = append(configs, t)
-	}
-	sort.Strings(configs)
-	for _, tags := range configs {
 		P, err := Load(RepoDir, tags)
 		if err != nil {
-			return fail("loading /repo with tags %s: %v", tags, err)
+			return nil, fmt.Errorf("loading /repo with tags %s: %v", tags, err)
 		}
 		if bad := CheckGlobalsImmutable(P, db); len(bad) > 0 {
-			return fail("global clauses are not sound: %s", strings.Join(bad, "; "))
+			return nil, fmt.Errorf("global clauses are not sound: %s", strings.Join(bad, "; "))
 		}
-		for _, k := range db.SortedKeys() {
-			s := db.Funcs[k]
-			if !hasProp(s, prop) || s.Trusted || s.IsC || strings.Contains(k, "#") {
+		progs[tags] = P
+		return P, nil
+	}
+	done := map[string]bool{}
+	var pending []string
+	for _, k := range db.SortedKeys() {
+		s := db.Funcs[k]
+		if hasProp(s, prop) && !s.Trusted && !strings.Contains(k, "#") {
+			pending = append(pending, k)
+		}
+	}
+	nTagged := len(pending)
+	for len(pending) > 0 {
+		k := pending[0]
+		pending = pending[1:]
+		if done[k] {
+			continue
+		}
+		done[k] = true
+		s := db.Funcs[k]
+		var r *FuncResult
+		if s.IsC {
+			if s.NoBody {
 				continue
 			}
-			t := "verif"
+			P, err := loadCfg("verif")
+			if err != nil {
+				return fail("%v", err)
+			}
+			r = GenCFunc(P, db, strings.TrimPrefix(k, "C."), s)
+			if r.Skipped != "" {
+				return fail("%s: %s", k, r.Skipped)
+			}
+			r.Tags = "C (clang AST)"
+			for _, c := range r.Callees {
+				if cs := db.Funcs[c]; cs != nil && (cs.Trusted || cs.NoBody) {
+					usedExtern[c] = true
+				}
+			}
+		} else {
+			tags := "verif"
 			if s.Tags != "" {
-				t += "," + s.Tags
+				tags += "," + s.Tags
 			}
-			if t != tags {
-				continue
+			P, err := loadCfg(tags)
+			if err != nil {
+				return fail("%v", err)
 			}
 			fn := P.Funcs[k]
 			if fn == nil {
 				if strings.HasPrefix(k, "(") && !strings.HasPrefix(k, "(*") && P.isInterfaceMethod(k) {
 					continue // contract of an interface method: used at call sites only
 				}
-				return fail("contract for %s: no such function in /repo (tags %s)", k, tags)
+				if hasProp(s, prop) {
+					return fail("contract for %s: no such function in /repo (tags %s)", k, tags)
+				}
+				continue
 			}
-			r := GenFunc(P, db, fn, s)
+			r = GenFunc(P, db, fn, s)
 			if r.Skipped != "" {
 				return fail("%s: %s", k, r.Skipped)
 			}
 			r.Tags = tags
-			results = append(results, r)
 			for _, c := range r.Callees {
 				if cs := db.Funcs[c]; cs != nil && (cs.Trusted || (P.Funcs[c] == nil && !cs.IsC)) {
 					usedExtern[c] = true
@@ -168,16 +197,37 @@ func runCheck(prop, tier string, seed int) (int, *Evidence) {
 					usedC[c] = true
 				}
 			}
-			for _, w := range r.Warnings {
-				warnings[k+": "+w] = true
+		}
+		results = append(results, r)
+		for _, w := range r.Warnings {
+			warnings[k+": "+w] = true
+		}
+		for _, c := range r.Callees {
+			cs := db.Funcs[c]
+			if cs == nil || done[c] || cs.Trusted || cs.NoBody || len(cs.Props) == 0 || strings.Contains(c, "#") {
+				continue
 			}
+			pending = append(pending, c)
 		}
 	}
+	_ = nTagged
 	if len(results) == 0 {
 		return fail("no function under contract for %s", prop)
 	}
 	// spec-level lemmas used by the theories: proved here against the bare theory
+	if prop == "C16" {
+		if P, err := Load(RepoDir, "verif"); err == nil {
+			if l := StringSeparationLemma(P); l != nil {
+				Lemmas = append(Lemmas, *l)
+			}
+		}
+	}
 	results = append(results, LemmaObligations(prop)...)
+	if P, err := Load(RepoDir, "verif"); err == nil {
+		if r := InvariantWriterObligations(P, db, prop); r != nil {
+			results = append(results, r)
+		}
+	}
 	Discharge(results, dir, timeout, 12, stats)
 	retried := Retry(results, dir, 3*timeout, stats)
 
@@ -210,7 +260,7 @@ func runCheck(prop, tier string, seed int) (int, *Evidence) {
 			}
 			matched := false
 			for _, kf := range known {
-				if kf.Status == "known" && kf.Property == prop && kf.Obligation == o.Name {
+				if kf.Status == "known" && kf.Obligation == o.Name {
 					matched = true
 					fmt.Printf("KNOWN-FINDING: property=%s %s: %s (witness: %s)\n", prop, kf.ID, kf.Description, kf.Witness)
 					knownHit = append(knownHit, kf.ID+" "+o.Name)
@@ -326,6 +376,7 @@ func replayModel(o *Obl, rep map[string]any) bool {
 var commonAssumptions = []string{
 	"memory model: objects are sequences of abstract cells, one heap per cell sort (Burstall-Bornat); unsafe casts are not modelled",
 	"every slice received from outside has fewer than 2^31 elements (lengths are passed to C as int: a longer slice would be truncated; such inputs need > 2 GiB and are outside every property's quantifier); allocation never fails",
+	"pointers received from callers or loaded from the heap never point into package-level variables (no address of a package variable is stored or passed around in the module)",
 	"append is modelled as copy-to-fresh (the old backing array is dead after x = append(x, ...) at every use in /repo)",
 	"strings are an uninterpreted sort with a length; contents of formatted messages are not modelled",
 }
